@@ -221,6 +221,23 @@ def judge(p, ctx, fsys, fm, A, b_top, frame, consistent):
         if not consistent or xd is None or objective(Md, bd.round(3), xd) > 1e-14 * float(bd @ bd):
             ctx.count("lsq_linear-inconsistent-not-judged")
             return "unjudged"
+        # ... and without the multiplier, which this back-end does not have: the multiplier of the default formulation
+        # can absorb an inconsistency of the junction equations (a non-zero optimal multiplier) that this one cannot
+        from scipy.optimize import nnls as _nnls
+        M_nm = np.vstack([A, np.ones((1, E))])
+        b_nm = np.append(np.asarray(b_top, float).flatten(), E)
+        with np.errstate(all="ignore"):
+            _, r_nm = _nnls(M_nm, b_nm)
+        if r_nm > 1e-7 * float(np.linalg.norm(b_nm)) or abs(float(xd[-1])) > 1e-7:
+            ctx.count("lsq_linear-inconsistent-not-judged")
+            return "unjudged"
+        # the iterative solver (trf, tolerance 1e-10) works on the bordered normal equations: its error grows with
+        # their condition number, as in C01 / C03; systems beyond its reach are not judged
+        sK = infer.svals(np.asarray(M, float))
+        condK = float(sK[-1] / sK[0]) if sK[0] > 0 else 0.0
+        if 1e-7 / max(condK, 1e-12) > 3e-4:
+            ctx.count("lsq_linear-ill-conditioned-not-judged")
+            return "unjudged"
         x = rec["xres"]
         res = np.linalg.norm(M @ x - b)
         if vals.min() < -1e-9 or res > 1e-3 * max(1.0, np.linalg.norm(b)):
